@@ -17,6 +17,8 @@ Suites
                          specification: RFC 3986 section 5.2 in Coq.
   tstring  (proof tie)   coq/Grammar/TurtleStr.v <-> SinkParser.strconst/uEscape/UEscape, directly and through Graph.parse;
                          specification: the Turtle string productions [22]-[25].
+  tterm    (proof tie)   coq/Grammar/TurtleIri.v <-> the IRIREF branch of SinkParser.uri_ref2 (two-pass unescaping, join), called directly;
+                         specification: Turtle IRIREF production + RFC 3986 resolution.
   relref   (conformance) one relative IRI reference per Turtle/TriG document, every RFC 3986 kind x every kind of base x
                          @base / BASE / publicID, against the harness's own RFC 3986 5.2 resolver (findings C05l-p, repaired by 2947bd7e).
 """
@@ -74,8 +76,10 @@ ASSUMPTIONS = [
     "join: the base has a scheme and at most one '#', and is hierarchical unless the reference is a same-document reference "
     "(join raises ValueError otherwise, documented behaviour); an absolute reference is returned as it is (RDF resolves relative "
     "references only)",
-    "strconst: errors are not distinguished (BadSyntax / AssertionError / IndexError = rejected); the Turtle statement grammar, "
-    "IRIREF/prefixed-name/number terminals of Turtle, RDF/XML and JSON-LD are exercised by conformance testing only (no Coq model)",
+    "strconst / uri_ref2: errors are not distinguished (BadSyntax / AssertionError / IndexError = rejected); Turtle IRIREF: the "
+    "denoted IRI contains no backslash (not a legal IRI; there the two unescaping passes of uri_ref2 differ from the grammar); the "
+    "Turtle statement grammar, prefixed names, numbers, language tags and blank node labels at Turtle level, RDF/XML and JSON-LD are "
+    "exercised by conformance testing only (no Coq model)",
 ]
 RULE = ("ntout/ntread: 1-4 rows over a small vocabulary of IRIs, labels, lexical forms, language tags and datatypes that contains "
         "every character class the proofs split on (control characters, each IRIREF-forbidden character, quote/backslash/CR/LF, "
@@ -83,7 +87,8 @@ RULE = ("ntout/ntread: 1-4 rows over a small vocabulary of IRIs, labels, lexical
         "well-formed and was written. spell: graphs of 1-6 triples rendered with random choices for every alternative form. "
         "join: base x reference over ten base shapes, the RFC 3986 5.4 references and random strings over ':/?#.ab'; non-trivial when "
         "the result differs from the reference. tstring: a value spelled in one of the four quotings with random escapes, 30% with "
-        "one character dropped/inserted/replaced; non-trivial when accepted and containing an escape.")
+        "one character dropped/inserted/replaced; non-trivial when accepted and containing an escape. tterm: an IRI or relative reference "
+        "spelled as IRIREF with random \\u/\\U escapes against ten base shapes or no base, 25% damaged; non-trivial when accepted and escaped.")
 
 # ------------------------------------------------------------------ explicit terms <-> JSON
 # term JSON: ["I", s] | ["B", s] | ["L", lex, None | ["lang", l] | ["dt", d]]
@@ -2264,4 +2269,61 @@ class TString(Suite):
                 "via_parse": int(obs["via"] is not None)}
 
 
-SUITES = [NtOut(), LangTag(), NtRead(), Spell(), Sources(), XmlOut(), RelRef(), Join(), TString()]
+# ====================================================================== tterm (proof tie)
+class TTerm(Suite):
+    """the IRIREF branch of SinkParser.uri_ref2 (two-pass unicode unescaping, join, '#' patch) against its Coq model and the
+    Turtle IRIREF production + RFC 3986 resolution (coq/Grammar/TurtleIri.v), called directly (through Graph.parse: suites spell, relref)"""
+    name = "tterm"
+    imports = "From RV Require Import Grammar.TurtleIri."
+    case_ty = "icase"
+    obs_ty = "iobs"
+    model = "i_model"
+    oeq = "pair_eqb"
+    spec = "i_spec_ok"
+    corr = "notation3.SinkParser.uri_ref2 ('<' branch), unicodeEscape8/unicodeEscape4.sub(unicodeExpand), join"
+    quick_n = 400
+    thorough_n = 6000
+    IRIS = ["http://e/a", "x", "../y#f", "", "#", "a#", "?q", "//h/p", "urn:x:y", "http://e/é中", "/s/../t", "a:b\\c", "g:h",
+            "http://e/u0041", "p/q;r?s#t", "\U0001F600", "z#"]
+    TAILS = [" .", " <a:p> <a:o> .", "", ">", "<x>"]
+
+    def gen(self, rng, i):
+        iri = rng.choice(self.IRIS + RFC_REFS)
+        esc = rng.choice([0.0, 0.0, 0.2, 0.6])
+        body = "".join(uescape(rng, c) if (ord(c) <= 0x20 or c in '<>"{}|^`\\' or rng.random() < esc) else c for c in iri)
+        text = body + ">" + rng.choice(self.TAILS)
+        if rng.random() < 0.25:
+            k = rng.randrange(len(text) + 1)
+            op = rng.choice(["drop", "ins", "rep"])
+            ch = rng.choice(["\\", "u", "U", "0", "g", ">", "#", ":", " ", "5", "C"])
+            text = text[:k] + (ch if op != "drop" else "") + text[k + (0 if op == "ins" else 1):]
+        base = rng.choice(BASES + [RFC_BASE, None, None, "mid:foo@example", "http://e/a#b#c"])
+        return {"base": base, "text": text}
+
+    def run_impl(self, case):
+        from rdflib.plugins.parsers.notation3 import RDFSink, SinkParser
+        text = "<" + case["text"]
+        try:
+            p = SinkParser(RDFSink(Graph()), baseURI=case["base"], turtle=True)
+            if case["base"] is None:
+                p._baseURI = None
+            res = []
+            j = p.uri_ref2(text, 0, res)
+            return [str.__str__(res[0]), text[j:]] if j >= 0 and len(res) == 1 else None
+        except Exception:  # noqa: BLE001
+            return None
+
+    def coq_case(self, case):
+        return "{| i_base := " + copt(case["base"], cstr) + "; i_text := " + cstr(case["text"]) + " |}"
+
+    def coq_obs(self, obs):
+        return copt(obs, lambda x: ctuple(cstr(x[0]), cstr(x[1])))
+
+    def nontrivial(self, case, obs):
+        return obs is not None and "\\" in case["text"]
+
+    def features(self, case, obs):
+        return {"accepted": int(obs is not None), "with_base": int(case["base"] is not None), "escaped": int("\\" in case["text"])}
+
+
+SUITES = [NtOut(), LangTag(), NtRead(), Spell(), Sources(), XmlOut(), RelRef(), Join(), TString(), TTerm()]
